@@ -531,7 +531,7 @@ class FnTypes:
         if k == "bind":
             return {None: self.t_bind(n, env)}
         if k == "test":
-            return {True: self.narrow(n.ast, env, True), False: self.narrow(n.ast, env, False)}
+            return {True: self.narrow(n.ast, env, True, n), False: self.narrow(n.ast, env, False, n)}
         return {None: env}
 
     @staticmethod
@@ -759,7 +759,46 @@ class FnTypes:
                 out.add(a)
             return frozenset(out)
 
-    def narrow(self, test: ast.expr, env, truth: bool):
+    def _flag_expr(self, name: ast.Name, node):
+        """the expression a local boolean flag stands for (`is_field = isinstance(field, Field)`), if it still means the same
+        at *node*: one reaching definition, and every name it mentions has the same definitions there as here"""
+        from .defuse import reaching_defs
+        if node is None:
+            return None
+        rd = reaching_defs(self.fn)
+        defs = rd.reaching(node, name.id)
+        if len(defs) != 1 or defs[0].kind != "assign" or defs[0].value is None or defs[0].node is None:
+            return None
+        v = defs[0].value
+        ok_shape = lambda e: isinstance(e, (ast.Compare, ast.BoolOp)) or (isinstance(e, ast.Call) and isinstance(e.func, ast.Name)
+                                                                         and e.func.id in ("isinstance", "isconfigtype", "bool")) \
+            or (isinstance(e, ast.UnaryOp) and isinstance(e.op, ast.Not))
+        if isinstance(v, ast.Call) and isinstance(v.func, ast.Name) and v.func.id == "bool" and len(v.args) == 1:
+            v = v.args[0]
+        if not ok_shape(v):
+            return None
+        for x in ast.walk(v):
+            if isinstance(x, ast.Name) and isinstance(x.ctx, ast.Load):
+                a = {id(d) for d in rd.reaching(defs[0].node, x.id)}
+                b = {id(d) for d in rd.reaching(node, x.id)}
+                if a != b:
+                    return None
+        return v
+
+    def narrow(self, test: ast.expr, env, truth: bool, node=None, _depth=0):
+        if _depth < 4:
+            if isinstance(test, ast.Name):
+                fe = self._flag_expr(test, node)
+                if fe is not None:
+                    return self.narrow(fe, env, truth, node, _depth + 1)
+            if isinstance(test, ast.UnaryOp) and isinstance(test.op, ast.Not):
+                return self.narrow(test.operand, env, not truth, node, _depth + 1)
+            if isinstance(test, ast.BoolOp):
+                if (isinstance(test.op, ast.And) and truth) or (isinstance(test.op, ast.Or) and not truth):
+                    for v in test.values:
+                        env = self.narrow(v, env, truth, node, _depth + 1)
+                    return env
+                return env
         env2 = None
 
         def setk(key, t):
